@@ -4,6 +4,69 @@ from __future__ import annotations
 from .te import ClassRef, FuncRef, Member, ModuleRef, TypeRef  # noqa: F401
 
 
+class PyModel:
+    """Base of small Python models of trusted-base library objects (zigpy's diagnostics counters ...): the explorer reads their
+    attributes and calls their methods natively."""
+
+
+class ZCounter(PyModel):
+    """zigpy.state.Counter: an ever increasing counter; reset() marks a roll-over and keeps the value."""
+
+    def __init__(self, name=None):
+        self.name, self._raw_value, self._last_reset_value, self.reset_count = name, 0, 0, 0
+
+    @property
+    def value(self):
+        return self._last_reset_value + self._raw_value
+
+    def __int__(self):
+        return self.value
+
+    def __eq__(self, o):
+        return self.value == (o.value if isinstance(o, ZCounter) else o)
+
+    __hash__ = object.__hash__
+
+    def increment(self, increment=1):
+        self._raw_value += increment
+
+    def reset_and_update(self, value):
+        self._last_reset_value = self.value
+        self._raw_value = value
+        self.reset_count += 1
+
+    def reset(self):
+        self.reset_and_update(0)
+
+    def update(self, new_value):
+        if new_value == self._raw_value:
+            return
+        if new_value - self._raw_value < 0:
+            self.reset_and_update(new_value)
+            return
+        self._raw_value = new_value
+
+    def __repr__(self):
+        return f"Counter({self.name!r}, {self.value})"
+
+
+class ZCounterGroup(dict, PyModel):
+    """zigpy.state.CounterGroup / CounterGroups: missing entries are created (a group of groups at the top, counters below)."""
+
+    def __init__(self, depth=0):
+        super().__init__()
+        self.depth = depth
+
+    def __missing__(self, key):
+        v = ZCounterGroup(self.depth - 1) if self.depth > 0 else ZCounter(key)
+        self[key] = v
+        return v
+
+    def reset(self):
+        for v in self.values():
+            v.reset()
+
+
 class Sym:
     """Opaque tagged symbol.  Identity = tag.  Flows through assignments unchanged."""
 
